@@ -22,7 +22,8 @@ PROP = {'gen': [],
  'corr_check': 'SNT.Corr.C01Corr.c01_check (model Render/Frame.v vs surf_n_term::render::TerminalRenderer driven through its public API '
                'against a recording Terminal: same TerminalCommand list per operation; predicate Render/Spec.v spec_run: the reference '
                'terminal Render/Screen.v executes the IMPLEMENTATION\'s commands from a blank screen and must display show(S) after every '
-               'frame, no protocol error)',
+               'frame, no protocol error; first component also Spec.resume_run / Loop.loop_spec false: what holds inside the known '
+               'classes as well)',
  'level_text': 'Coq theorems over an executable model of TerminalRenderer (new, surface, frame with its three passes, clear) and a '
                'reference terminal: for every terminal size and every finite history of draws, frames, dropped frames, clear(), '
                're-created renderers and resizes to arbitrary screens '
@@ -35,13 +36,20 @@ PROP = {'gen': [],
                'the "forced clear" part of the property is carried by the order of run_render (poll; frames_drop; clear(); only then '
                'the handler draws; frame()) and proved for the render loop with its '
                'output queue and frame dropping, end to end: whatever the tty takes, whatever frames_pending() answers and whichever prefix '
-               'of the queue survives a drop, every delivered frame is displayed right (C01_render_loop; TERMINAL_FRAMES_DROP '
-               'regenerated from the source), except in the known class DroppedImageErase; a frame that repeats the previous one issues no command, '
-               'for every surface (C01_idle_frame); show is characterised cell by cell '
-               '(C01_show_is_denotation). Surfaces in which an image shares a cell with another image or with a wide character are '
-               'the recorded known classes OverlapImages / OverlapWideImage (one _refuted witness each). The model is tied to the '
-               'code by a differential run on command lists, and the property predicate is evaluated on the implementation\'s own '
-               'commands.',
+               'of the queue survives a drop, every delivered frame of every session displays the surface drawn for it - cells, no '
+               'protocol error, its placements - and places nothing besides them and the images whose ImageErase the last drop '
+               'discarded (C01_render_loop, unconditional; TERMINAL_FRAMES_DROP regenerated from the source); without such a stale '
+               'drop (known class DroppedImageErase) the display is exact (C01_render_loop_exact); a frame that repeats the previous '
+               'one issues no command, for every surface (C01_idle_frame); show is characterised cell by cell '
+               '(C01_show_is_denotation) and never contains a split wide character (C01_show_no_orphan). Surfaces in which an image '
+               'shares a cell with another image or with a wide character are the recorded known classes OverlapImages / '
+               'OverlapWideImage (one _refuted witness each; a wide character under an image has no picture at all: '
+               'C01_overlap_wide_image_no_picture); the classes are cut to their extent: for every history over surfaces of the domain, '
+               'overlaps allowed, judging is suspended only from the frame() of such a surface to the next clear() / new renderer / '
+               'resize and every frame after that is right again up to the placements left at that moment (C01_history_resumes). '
+               'The model is tied to the '
+               'code by a differential run on command lists, and the property predicates (exact ones, and the ones that hold inside '
+               'the known classes too) are evaluated on the implementation\'s own commands.',
  'level_note': 'Trusted: Coq kernel + vm_compute; the reference terminal Render/Screen.v (a printed space shows fspace(pen), '
                'EraseChars leaves ferase(pen) = background only, clipped, cursor unmoved; CUP row clamp; images do not alter cells; an '
                'overwritten wide half leaves an Orphan cell that no surface denotes); hand-written model Render/Frame.v validated by '
@@ -75,7 +83,8 @@ PROP = {'gen': [],
                  'treats as erasable erase like printed spaces. Characters of width 0 and wide characters in the last column are '
                  'outside the domain',
                  'surfaces in which an image/glyph rectangle shares a cell with another image or with a wide character are the known '
-                 'classes OverlapImages / OverlapWideImage',
+                 'classes OverlapImages / OverlapWideImage: no statement from the frame() of such a surface to the next clear() / new '
+                 'renderer / resize, and placements still on the terminal at that moment are tolerated afterwards',
                  'render loop: the queue interface proved in C16 (whole chunks, in order, drops keep a prefix); sessions in which a '
-                 'dropped chunk carried the ImageErase of a delivered image are the known class DroppedImageErase; a resize while '
-                 'frames are pending is outside the sessions']}
+                 'dropped chunk carried the ImageErase of a delivered image are the known class DroppedImageErase (that image stays; '
+                 'everything else is still judged); a resize while frames are pending is outside the sessions']}
